@@ -127,7 +127,9 @@ fn exec_op(op: &str) -> String {
     }
 }
 
-pub fn exec(body: &str) -> String {
+pub fn exec(body: &str, emit: &mut dyn FnMut(&str)) {
     std::panic::set_hook(Box::new(|_| {}));
-    body.split(" | ").map(exec_op).collect::<Vec<_>>().join(" | ")
+    for op in body.split(" | ") {
+        emit(&exec_op(op));
+    }
 }
